@@ -90,6 +90,14 @@ pub struct FDump {
     /// a structural digest (counts, sizes, locations - never content bytes) or the error
     #[serde(default)]
     pub bare: BTreeMap<String, Acc<String>>,
+    /// check() asked of the pack OBJECTS the container hands out ("obj|<pack id>" through
+    /// Container::get_pack, "obj|dir" the directory pack): the same objects before and after a live alteration
+    #[serde(default)]
+    pub object_checks: BTreeMap<String, Acc<bool>>,
+    /// live phase: ids of the content packs whose contents are served differently after the
+    /// alteration, and whether the directory (indexes, entries) is
+    #[serde(default)]
+    pub live_detail: Option<(Vec<u16>, bool)>,
 }
 
 #[derive(Serialize, Deserialize, Debug, Clone)]
@@ -270,7 +278,11 @@ pub fn fill_from_container(c: &jbk::reader::Container, job: &Job, d: &mut FDump)
             Ok(Some(jbk::reader::MayMissPack::FOUND(p))) => Acc::Ok(p.get_content_count().into_u32() as i64),
         };
         d.packs.insert(id, v);
+        if let Ok(Some(jbk::reader::MayMissPack::FOUND(p))) = c.get_pack(id.into()) {
+            d.object_checks.insert(format!("obj|{id}"), acc(jbk::Pack::check(&*p)));
+        }
     }
+    d.object_checks.insert("obj|dir".into(), acc(jbk::Pack::check(&**c.get_directory_pack())));
     for (p, cid) in &job.addresses {
         let key = format!("{p}:{cid}");
         let v = match c.get_bytes(jbk::ContentAddress::new((*p).into(), (*cid).into())) {
@@ -346,6 +358,11 @@ pub fn run_job(job: &Job) -> FDump {
             Ok((d0, mut d1)) => {
                 d1.open = Some(Acc::Ok(()));
                 d1.live_changed = Some(d0.indexes != d1.indexes || d0.contents != d1.contents || d0.packs != d1.packs || d0.pack_count != d1.pack_count);
+                let mut packs: Vec<u16> = d0.contents.iter().filter(|(k, v)| d1.contents.get(*k) != Some(v)).filter_map(|(k, _)| k.split(':').next().and_then(|p| p.parse().ok())).collect();
+                packs.extend(d0.packs.iter().filter(|(k, v)| d1.packs.get(*k) != Some(v)).map(|(k, _)| *k));
+                packs.sort();
+                packs.dedup();
+                d1.live_detail = Some((packs, d0.indexes != d1.indexes));
                 return d1;
             }
             Err(e) => {
